@@ -8,8 +8,14 @@
      fails yet.  What fails is FORCING it: printing, truth test, ==/!=, iteration (Strict
      only), attribute/item access on it, the escape filter, range() (both policies).
    * under Lenient forcing gives "", False, the empty iteration.
-   * an Undefined stored inside a list literal is NOT forced by printing the list
-     (repr gives "Undefined") — true for StrictUndefined as well.
+   * an Undefined stored inside a list / tuple / dict literal: printing the container shows
+     its elements with repr().  jinja2.StrictUndefined does NOT guard repr ("[Undefined]");
+     an undefined class of the code may ([rf] = "repr of the undefined fails", a PARAMETER
+     of repr / to_str / render; the values the code configures are the probed constants
+     Gen/Tables.env_repr_fails / native_repr_fails).
+   * a native template hands the value back unforced; the code may look through the result
+     (lists, tuples, dict values, to any depth) for Undefined objects and fail ([nc] = "native
+     result checked", a PARAMETER of eval_native; probed constant native_result_checked).
    * `a and b` / `a or b` return operands and short-circuit; un-taken branches and
      zero-iteration bodies are not evaluated.
    Outside the sub-language the model answers [EUnsupported]; the correspondence harness
@@ -36,6 +42,7 @@ Inductive value :=
 | VInt (z : Z)
 | VStr (s : str)
 | VList (l : list value)
+| VTuple (l : list value)
 | VDict (d : list (str * value))
 | VRange (n : Z)                (* range(n) *)
 | VUndef.                       (* an Undefined object *)
@@ -54,7 +61,9 @@ Inductive expr :=
 | EAnd (a b : expr)
 | EOr (a b : expr)
 | ERange (a : expr)
-| EList (l : list expr).
+| EList (l : list expr)
+| ETuple (l : list expr)                 (* (a, b) / (a,) / () *)
+| EDict (d : list (str * expr)).         (* {'k': a, ...}: string-literal keys *)
 
 Inductive node :=
 | NText (s : str)
@@ -96,6 +105,7 @@ Definition truthy (p : undefined_policy) (v : value) : result terr bool :=
   | VInt z => Ok (negb (Z.eqb z 0))
   | VStr s => Ok (match s with [] => false | _ => true end)
   | VList l => Ok (match l with [] => false | _ => true end)
+  | VTuple l => Ok (match l with [] => false | _ => true end)
   | VDict d => Ok (match d with [] => false | _ => true end)
   | VRange n => Ok (Z.ltb 0 n)
   | VUndef => undef_forced p false
@@ -104,8 +114,9 @@ Definition truthy (p : undefined_policy) (v : value) : result terr bool :=
 Fixpoint has_undef (v : value) : bool :=
   match v with
   | VUndef => true
-  | VList l => (fix go (l : list value) : bool :=
-                  match l with [] => false | x :: r => has_undef x || go r end) l
+  | VList l | VTuple l =>
+    (fix go (l : list value) : bool :=
+       match l with [] => false | x :: r => has_undef x || go r end) l
   | VDict d => (fix go (d : list (str * value)) : bool :=
                   match d with [] => false | (_, x) :: r => has_undef x || go r end) d
   | _ => false
@@ -124,6 +135,20 @@ Fixpoint veq (p : undefined_policy) (a b : value) {struct a} : result terr bool 
   | VNone, VNone => Ok true
   | VStr s, VStr t => Ok (str_eqb s t)
   | VList l, VList m =>
+    if has_undef a || has_undef b then Err EUnsupported
+    else if negb (Nat.eqb (List.length l) (List.length m)) then Ok false
+    else (fix go (l m : list value) {struct l} : result terr bool :=
+            match l, m with
+            | [], _ => Ok true
+            | _, [] => Ok true
+            | x :: l', y :: m' =>
+              match veq p x y with
+              | Err e => Err e
+              | Ok false => Ok false
+              | Ok true => go l' m'
+              end
+            end) l m
+  | VTuple l, VTuple m =>
     if has_undef a || has_undef b then Err EUnsupported
     else if negb (Nat.eqb (List.length l) (List.length m)) then Ok false
     else (fix go (l m : list value) {struct l} : result terr bool :=
@@ -189,7 +214,8 @@ Fixpoint join_str (sep : str) (parts : list str) : str :=
   | p :: r => p ++ sep ++ join_str sep r
   end.
 
-Fixpoint repr (v : value) : result terr str :=
+(* [rf]: repr() of an Undefined object raises UndefinedError (false: it returns "Undefined") *)
+Fixpoint repr (rf : bool) (v : value) : result terr str :=
   match v with
   | VNone => Ok ((* None *) [78; 111; 110; 101])
   | VBool b => Ok (if b then (* True *) [84; 114; 117; 101] else (* False *) [70; 97; 108; 115; 101])
@@ -199,7 +225,7 @@ Fixpoint repr (v : value) : result terr str :=
     match (fix go (l : list value) : result terr (list str) :=
              match l with
              | [] => Ok []
-             | x :: r => match repr x with
+             | x :: r => match repr rf x with
                          | Err e => Err e
                          | Ok a => match go r with Err e => Err e | Ok t => Ok (a :: t) end
                          end
@@ -207,12 +233,25 @@ Fixpoint repr (v : value) : result terr str :=
     | Err e => Err e
     | Ok parts => Ok (91 :: join_str [44; 32] parts ++ [93])
     end
+  | VTuple l =>
+    match (fix go (l : list value) : result terr (list str) :=
+             match l with
+             | [] => Ok []
+             | x :: r => match repr rf x with
+                         | Err e => Err e
+                         | Ok a => match go r with Err e => Err e | Ok t => Ok (a :: t) end
+                         end
+             end) l with
+    | Err e => Err e
+    | Ok [p] => Ok (40 :: p ++ [44; 41])
+    | Ok parts => Ok (40 :: join_str [44; 32] parts ++ [41])
+    end
   | VDict d =>
     match (fix go (d : list (str * value)) : result terr (list str) :=
              match d with
              | [] => Ok []
              | (k, x) :: r =>
-               match repr_str k, repr x with
+               match repr_str k, repr rf x with
                | Ok kk, Ok a => match go r with Err e => Err e | Ok t => Ok ((kk ++ [58; 32] ++ a) :: t) end
                | Err e, _ => Err e
                | _, Err e => Err e
@@ -222,15 +261,16 @@ Fixpoint repr (v : value) : result terr str :=
     | Ok parts => Ok (123 :: join_str [44; 32] parts ++ [125])
     end
   | VRange n => Ok ((* range(0,  *) [114; 97; 110; 103; 101; 40; 48; 44; 32] ++ show_Z n ++ [41])
-  | VUndef => Ok ((* Undefined *) [85; 110; 100; 101; 102; 105; 110; 101; 100])
+  | VUndef => if rf then Err EUndefined
+              else Ok ((* Undefined *) [85; 110; 100; 101; 102; 105; 110; 101; 100])
   end.
 
 (* str(v) as `{{ v }}` prints it *)
-Definition to_str (p : undefined_policy) (v : value) : result terr str :=
+Definition to_str (rf : bool) (p : undefined_policy) (v : value) : result terr str :=
   match v with
   | VStr s => Ok s
   | VUndef => undef_forced p []
-  | _ => repr v
+  | _ => repr rf v
   end.
 
 (* ---- attribute / item access (Environment.getattr / getitem) ---- *)
@@ -267,7 +307,7 @@ Definition get_item (v k : value) : result terr value :=
       | None => Err EUnsupported
       | Some i =>
         match v with
-        | VList l => Ok (match nth_py l i with Some x => x | None => VUndef end)
+        | VList l | VTuple l => Ok (match nth_py l i with Some x => x | None => VUndef end)
         | VStr s => Ok (match nth_py s i with Some c => VStr [c] | None => VUndef end)
         | VRange n => Ok (match range_nth n i with Some j => VInt j | None => VUndef end)
         | _ => Ok VUndef
@@ -286,13 +326,16 @@ Definition range_items (n : Z) : result terr (list value) :=
 
 Definition iter_values (p : undefined_policy) (v : value) : result terr (list value) :=
   match v with
-  | VList l => Ok l
+  | VList l | VTuple l => Ok l
   | VStr s => Ok (map (fun c => VStr [c]) s)
   | VDict d => Ok (map (fun kv => VStr (fst kv)) d)
   | VRange n => range_items n
   | VUndef => undef_forced p []
   | _ => Err ETypeErr
   end.
+
+Fixpoint distinct_keys (l : list str) : bool :=
+  match l with [] => true | k :: r => negb (mem_str k r) && distinct_keys r end.
 
 (* ---- expressions ---- *)
 Fixpoint eval (p : undefined_policy) (c : ctx) (e : expr) {struct e} : result terr value :=
@@ -360,6 +403,33 @@ Fixpoint eval (p : undefined_policy) (c : ctx) (e : expr) {struct e} : result te
     | Err e => Err e
     | Ok vs => Ok (VList vs)
     end
+  | ETuple l =>
+    match (fix go (l : list expr) : result terr (list value) :=
+             match l with
+             | [] => Ok []
+             | a :: r => match eval p c a with
+                         | Err e => Err e
+                         | Ok x => match go r with Err e => Err e | Ok xs => Ok (x :: xs) end
+                         end
+             end) l with
+    | Err e => Err e
+    | Ok vs => Ok (VTuple vs)
+    end
+  | EDict d =>
+    (* a repeated key (the later value wins, at the position of the first) is outside the
+       sub-language *)
+    if negb (distinct_keys (map fst d)) then Err EUnsupported else
+    match (fix go (d : list (str * expr)) : result terr (list (str * value)) :=
+             match d with
+             | [] => Ok []
+             | (k, a) :: r => match eval p c a with
+                              | Err e => Err e
+                              | Ok x => match go r with Err e => Err e | Ok xs => Ok ((k, x) :: xs) end
+                              end
+             end) d with
+    | Err e => Err e
+    | Ok kvs => Ok (VDict kvs)
+    end
   end.
 
 (* the escape filter: CellParser.escape_string(value) = value.replace(...): only str has
@@ -395,18 +465,18 @@ Fixpoint text_ok (s : str) : bool :=
               end
   end.
 
-Fixpoint render_node (p : undefined_policy) (n : node) (c : ctx) {struct n} : result terr str :=
+Fixpoint render_node (rf : bool) (p : undefined_policy) (n : node) (c : ctx) {struct n} : result terr str :=
   match n with
   | NText s => if text_ok s then Ok s else Err EUnsupported
-  | NOut e => match eval p c e with Err er => Err er | Ok v => to_str p v end
+  | NOut e => match eval p c e with Err er => Err er | Ok v => to_str rf p v end
   | NOutEsc e => match eval p c e with Err er => Err er | Ok v => apply_escape v end
   | NIf cnd a b =>
     match eval p c cnd with
     | Err er => Err er
     | Ok v => match truthy p v with
               | Err er => Err er
-              | Ok true => concat_mapM (fun m => render_node p m c) a
-              | Ok false => concat_mapM (fun m => render_node p m c) b
+              | Ok true => concat_mapM (fun m => render_node rf p m c) a
+              | Ok false => concat_mapM (fun m => render_node rf p m c) b
               end
     end
   | NFor x e body =>
@@ -416,13 +486,13 @@ Fixpoint render_node (p : undefined_policy) (n : node) (c : ctx) {struct n} : re
     | Ok v => match iter_values p v with
               | Err er => Err er
               | Ok items =>
-                concat_mapM (fun it => concat_mapM (fun m => render_node p m ((x, it) :: c)) body) items
+                concat_mapM (fun it => concat_mapM (fun m => render_node rf p m ((x, it) :: c)) body) items
               end
     end
   end.
 
-Definition render (p : undefined_policy) (t : tmpl) (c : ctx) : result terr str :=
-  concat_mapM (fun m => render_node p m c) t.
+Definition render (rf : bool) (p : undefined_policy) (t : tmpl) (c : ctx) : result terr str :=
+  concat_mapM (fun m => render_node rf p m c) t.
 
 (* NativeEnvironment: the value itself; a str result is re-read with ast.literal_eval, so
    only strings that cannot be Python literals are inside the sub-language *)
@@ -440,11 +510,17 @@ Definition native_plain (s : str) : bool :=
               && negb (mem_str (first_word s) ([(* True *) [84; 114; 117; 101]; (* False *) [70; 97; 108; 115; 101]; (* None *) [78; 111; 110; 101]]))
   end.
 
-Definition eval_native (p : undefined_policy) (e : expr) (c : ctx) : result terr value :=
+(* [nc]: the code looks through the result (the value itself, list and tuple elements, dict
+   values, to any depth) and raises UndefinedError when it meets an Undefined object *)
+Definition eval_native (nc : bool) (p : undefined_policy) (e : expr) (c : ctx) : result terr value :=
   match eval p c e with
   | Err er => Err er
-  | Ok (VStr s) => if native_plain s then Ok (VStr s) else Err EUnsupported
-  | Ok v => Ok v
+  | Ok v =>
+    if nc && has_undef v then Err EUndefined
+    else match v with
+         | VStr s => if native_plain s then Ok (VStr s) else Err EUnsupported
+         | _ => Ok v
+         end
   end.
 
 (* ---- concrete syntax (printer).  The harness sends ASTs; the text handed to the real
@@ -464,8 +540,11 @@ Fixpoint is_const (e : expr) : bool :=
   | EStr _ | EInt _ | EBool _ | ENone => true
   | EAttr a _ | ENot a => is_const a
   | EIndex a b | EEq a b | ENe a b | EAnd a b | EOr a b => is_const a && is_const b
-  | EList l => (fix go (l : list expr) : bool :=
-                  match l with [] => true | a :: r => is_const a && go r end) l
+  | EList l | ETuple l =>
+    (fix go (l : list expr) : bool :=
+       match l with [] => true | a :: r => is_const a && go r end) l
+  | EDict d => (fix go (d : list (str * expr)) : bool :=
+                  match d with [] => true | (_, a) :: r => is_const a && go r end) d
   end.
 
 Fixpoint expr_ok (e : expr) : bool :=
@@ -477,8 +556,12 @@ Fixpoint expr_ok (e : expr) : bool :=
   | EInt _ | EBool _ | ENone => true
   | EEq a b | ENe a b | EAnd a b | EOr a b => expr_ok a && expr_ok b
   | ENot a | ERange a => expr_ok a
-  | EList l => (fix go (l : list expr) : bool :=
-                  match l with [] => true | a :: r => expr_ok a && go r end) l
+  | EList l | ETuple l =>
+    (fix go (l : list expr) : bool :=
+       match l with [] => true | a :: r => expr_ok a && go r end) l
+  | EDict d => distinct_keys (map fst d)
+               && (fix go (d : list (str * expr)) : bool :=
+                     match d with [] => true | (k, a) :: r => lit_ok k && expr_ok a && go r end) d
   end.
 
 Fixpoint show_expr (e : expr) : str :=
@@ -498,6 +581,17 @@ Fixpoint show_expr (e : expr) : str :=
   | ERange a => (* range( *) [114; 97; 110; 103; 101; 40] ++ show_expr a ++ [41]
   | EList l => 91 :: join_str [44; 32] ((fix go (l : list expr) : list str :=
                                           match l with [] => [] | a :: r => show_expr a :: go r end) l) ++ [93]
+  | ETuple l =>
+    match (fix go (l : list expr) : list str :=
+             match l with [] => [] | a :: r => show_expr a :: go r end) l with
+    | [p] => 40 :: p ++ [44; 41]
+    | parts => 40 :: join_str [44; 32] parts ++ [41]
+    end
+  | EDict d => 123 :: join_str [44; 32] ((fix go (d : list (str * expr)) : list str :=
+                                           match d with
+                                           | [] => []
+                                           | (k, a) :: r => (39 :: k ++ [39; 58; 32] ++ show_expr a) :: go r
+                                           end) d) ++ [125]
   end.
 
 Fixpoint node_ok (n : node) : bool :=
@@ -568,7 +662,15 @@ Inductive pres :=
 
 (* CellParser.parse_as_string(value, context) for value = show_cell c.
    octx = None is `context is None` (omit_templating). *)
-Definition parse_as_string_m (penv pnat : undefined_policy) (octx : option ctx) (c : cell)
+(* what the code does with an Undefined object that nothing forced: the three probed facts *)
+Record uflags := mk_uflags {
+  f_env_repr : bool;     (* text environment: repr() of its Undefined objects fails *)
+  f_nat_repr : bool;     (* native environment: the same *)
+  f_nat_check : bool     (* parse_as_string looks through a native result for Undefined objects *)
+}.
+Definition tree_flags : uflags := mk_uflags env_repr_fails native_repr_fails native_result_checked.
+
+Definition parse_as_string_f (fl : uflags) (penv pnat : undefined_policy) (octx : option ctx) (c : cell)
   : result terr pres :=
   let stripped := strip (show_cell c) in
   match octx with
@@ -579,11 +681,11 @@ Definition parse_as_string_m (penv pnat : undefined_policy) (octx : option ctx) 
     else if starts_with ((* {@ *) [123; 64]) stripped && ends_with ((* @} *) [64; 125]) stripped then
       if find_sub ((* {@ *) [123; 64]) (skipn 2 stripped) then Err ENested
       else match c with
-           | CNative e => match eval_native pnat e cx with Err er => Err er | Ok v => Ok (PObj v) end
+           | CNative e => match eval_native (f_nat_check fl) pnat e cx with Err er => Err er | Ok v => Ok (PObj v) end
            | CTmpl _ => Err EUnsupported
            end
     else match c with
-         | CTmpl t => match render penv (strip_last (strip_first t)) cx with
+         | CTmpl t => match render (f_env_repr fl) penv (strip_last (strip_first t)) cx with
                       | Err er => Err er
                       | Ok s => Ok (PStr s)
                       end
@@ -591,9 +693,13 @@ Definition parse_as_string_m (penv pnat : undefined_policy) (octx : option ctx) 
          end
   end.
 
-Definition parse_m (penv pnat : undefined_policy) (octx : option ctx) (c : cell) : result terr pres :=
-  match parse_as_string_m penv pnat octx c with
+Definition parse_f (fl : uflags) (penv pnat : undefined_policy) (octx : option ctx) (c : cell) : result terr pres :=
+  match parse_as_string_f fl penv pnat octx c with
   | Err er => Err er
   | Ok (PStr s) => Ok (PNv (split_into_lists s))
   | Ok r => Ok r
   end.
+
+(* the code of this run *)
+Definition parse_as_string_m := parse_as_string_f tree_flags.
+Definition parse_m := parse_f tree_flags.
